@@ -1,7 +1,7 @@
 #!/bin/bash
 # determinism.sh [n_indices]  — every property: the same plan indices executed in independent processes (different ASLR,
 # different batching) must give identical event-log fingerprints and violation classes.
-. /verif/scripts/common.sh
+. "$(dirname "${BASH_SOURCE[0]}")/common.sh"
 n=${1:-240}
 export LOCPATH=$B/locale
 bash "$V/scripts/build.sh" asan >&2 || exit 2
